@@ -5,6 +5,9 @@
 
 #include <zix/filesystem.h>
 
+#include <signal.h>
+#include <sys/resource.h>
+
 #include <errno.h>
 #include <sys/file.h>
 #include <sys/mman.h>
@@ -105,6 +108,38 @@ main(int argc, char** argv)
         printf("st=%d", (int)st);
       }
       put_holders();
+    } else if (!strcmp(tok[0], "dirtyunlock") && n == 2) {
+      // The holder has written data that cannot be flushed (file size limit 0) when it unlocks: whatever the library does
+      // with the stream, the lock must be released, so that a later locker on another handle succeeds.
+      const ZixFileLockMode m = !strcmp(tok[1], "block") ? ZIX_FILE_LOCK_BLOCK : ZIX_FILE_LOCK_TRY;
+      char dpath[4200];
+      snprintf(dpath, sizeof(dpath), "%s.dirty", path);
+      int pfd[2];
+      if (pipe(pfd)) { puts("bad-op"); continue; }
+      fflush(stdout);
+      const pid_t child = fork();
+      if (!child) {
+        close(pfd[0]);
+        FILE* f = fopen(dpath, "w+");
+        int res[2] = {-1, -1};
+        if (f && zix_file_lock(f, ZIX_FILE_LOCK_TRY) == ZIX_STATUS_SUCCESS) {
+          fputs("data the holder wrote under the lock", f);   // stays in the stdio buffer
+          struct rlimit rl = {0, 0};
+          signal(SIGXFSZ, SIG_IGN);
+          setrlimit(RLIMIT_FSIZE, &rl);
+          res[0] = (int)zix_file_unlock(f, m);
+          FILE* g = fopen(dpath, "r");
+          res[1] = g ? (zix_file_lock(g, ZIX_FILE_LOCK_TRY) == ZIX_STATUS_SUCCESS) : -1;
+        }
+        if (write(pfd[1], res, sizeof(res)) != (ssize_t)sizeof(res)) {}
+        _exit(0);   // no stdio flushing in the child
+      }
+      close(pfd[1]);
+      int res[2] = {-2, -2};
+      if (read(pfd[0], res, sizeof(res)) != (ssize_t)sizeof(res)) {}
+      close(pfd[0]);
+      waitpid(child, NULL, 0);
+      printf("unlock-st=%d released=%d\n", res[0], res[1]);
     } else if (!strcmp(tok[0], "close") && n == 2) {
       const int h = atoi(tok[1]) % MAXH;
       if (handles[h]) fclose(handles[h]);
